@@ -38,13 +38,17 @@ pub fn preserve_optional(op: Option<impl quote::ToTokens>) -> TokenStream {
 }
 
 /// Convert a list of strings to an expression that resolves to a `Option<Vec<Alias>>`.
+///
+/// Like the name of the schema, an alias without a namespace is in the namespace of the schema
+/// (the variable `enclosing_namespace` where the expression is used), which is how the parser
+/// reads the JSON of the derived schema back.
 pub fn aliases(op: &[impl AsRef<str>]) -> TokenStream {
     let items: Vec<TokenStream> = op
         .iter()
         .map(|alias| {
             let alias = alias.as_ref();
             quote! {
-                ::apache_avro::schema::Alias::new(#alias).expect("Alias is invalid")
+                ::apache_avro::schema::Alias::new_with_enclosing_namespace(#alias, enclosing_namespace).expect("Alias is invalid")
             }
         })
         .collect();
